@@ -1,7 +1,7 @@
 META = dict(
     engine='seqx+cosched+mp',
     technique='explicit-state BFS over reserve/register/unregister/sync histories of the real taskpool registry against a reference map; preemption-bounded exhaustive schedule enumeration of concurrent reservations/lookups; exhaustive box of prior-history vectors under mpiexec for identifier synchronisation',
-    level_text='E2: all histories up to depth 7 (quick) / 9 (thorough) of reserve, register, unregister over 5 taskpools plus sync, lookups of every identifier >= 1 compared with a reference map after each step (three array doublings). E1: every schedule with <= 2 preemptions (quick; 3 thorough for the 2-thread scripts) of four 2-3 thread scripts: reserved identifiers distinct and dense, own lookups exact, foreign lookups never return a taskpool with another identifier, array growth inside the window. E5: for 1..3 (quick) / 1..4 (thorough) MPI processes every vector of prior reservation counts from {0,1,3}^n ({0,1,2,3,5,8}^n thorough), once on a fresh registry and once cumulatively: after parsec_taskpool_sync_ids all processes obtain the same next identifier max+1 and earlier registrations still resolve.',
+    level_text='E2: all histories up to depth 7 (quick) / 9 (thorough) of reserve, register, unregister over 5 taskpools plus sync, lookups of every identifier >= 1 compared with a reference map after each step (three array doublings). E1: every schedule with <= 2 preemptions (quick; 3 thorough for the 2-thread scripts) of four 2-3 thread scripts: reserved identifiers distinct and dense, own lookups exact, foreign lookups never return a taskpool with another identifier, array growth inside the window. E5: for 1..3 (quick) / 1..4 (thorough) MPI processes every vector of prior reservation counts from {0,1,3}^n ({0,1,2,3,5,8}^n thorough for n <= 3), once on a fresh registry and once cumulatively: after parsec_taskpool_sync_ids all processes obtain the same next identifier max+1 and earlier registrations still resolve.',
     level_note='parsec.c is compiled into the harness TUs (#include) to reach the file-static registry. lookup(0) is outside the property (identifier 0 is never assigned; on a fresh registry it dereferences a NULL array) and is not in the alphabet. The MPI leg runs real processes (not instrumented): it is exhaustive over the prior-history box, not over schedules. Sequential consistency at instrumented accesses for E1.',
 )
 RULE = ("seqx: BFS over operation histories on the real registry, deduplicated by (pos, size, slots 1..pos, per-pool state/id); non-trivial = shortest history has >= 2 operations. "
@@ -38,11 +38,11 @@ def check(ctx):
         conc(ctx, exe, ['reserve_register_lookup', 'two_by_two_growth', 'reserve3_fresh'], 2, 30, 'conc_b2')
         conc(ctx, exe, ['reserve_unregister_lookup'], 1, 8, 'conc3_b1')
     else:
-        conc(ctx, exe, ['reserve_register_lookup', 'two_by_two_growth'], 3, 300, 'conc2_b3')
-        conc(ctx, exe, ['reserve3_fresh', 'reserve_unregister_lookup'], 2, 400, 'conc3_b2')
+        conc(ctx, exe, ['reserve_register_lookup', 'two_by_two_growth'], 3, 200, 'conc2_b3')
+        conc(ctx, exe, ['reserve3_fresh', 'reserve_unregister_lookup'], 2, 300, 'conc3_b2')
     mexe = b_mpi(ctx)
     for n in ([1, 2, 3] if quick else [1, 2, 3, 4]):
-        mpirun(ctx, mexe, n, [] if quick else ['--thorough'], 'sync_n%d' % n)
+        mpirun(ctx, mexe, n, [] if (quick or n == 4) else ['--thorough'], 'sync_n%d' % n)     # 4 ranks: the {0,1,3} box also in thorough (2 592 cases cost 8 min on the loaded VM)
     return ctx.finish(RULE, ASSUME)
 
 
